@@ -24,7 +24,12 @@ def dispatch (line : String) : String :=
     else if op = "order" then opOrder args
     else if op = "time" then opTime args
     else if op = "go" then opGo args
+    else if op = "gof" then opGof args
     else if op = "prep" then opPrep args
+    else if op = "hashdiff" then opHashdiff args
+    else if op = "ecache" then opEcache args
+    else if op = "dialog" then opDialog args
+    else if op = "conc" then opConc args
     else if op = "search" then opSearch args
     else if op = "judge" then opJudge args
     else "bad-op"
